@@ -115,8 +115,14 @@ func c17Engine(srcs map[string]string, inj *c17Injector, debug bool) *twig.Engin
 	case 0:
 		e.RegisterLoader(own)
 	case 1:
+		// ... or before a loader that has templates of the same names: the first loader that has a name decides, so a failure
+		// of its read is the failure of the lookup, not a reason to serve the other loader's template
 		e.RegisterLoader(own)
-		e.RegisterLoader(twig.NewArrayLoader(map[string]string{"unrelated_template": "u"}))
+		shadow := map[string]string{"unrelated_template": "u"}
+		for name := range srcs {
+			shadow[name] = "SHADOW<" + name + ">"
+		}
+		e.RegisterLoader(twig.NewArrayLoader(shadow))
 	case 2:
 		e.RegisterLoader(twig.NewArrayLoader(map[string]string{"unrelated_template": "u"}))
 		e.RegisterLoader(own)
